@@ -7,9 +7,10 @@ import (
 )
 
 // Pinned witnesses: run first in every tier.
-//   kind "diff":   full differential protocol on a raw pattern (may be outside the generator's domain)
-//   kind "expect": the first exec() result from lastIndex 0 must render as Expect (derived by hand from ECMA-262 §22.2.2)
-//   kind "catalogue": a catalogue-style entry
+//
+//	kind "diff":   full differential protocol on a raw pattern (may be outside the generator's domain)
+//	kind "expect": the first exec() result from lastIndex 0 must render as Expect (derived by hand from ECMA-262 §22.2.2)
+//	kind "catalogue": a catalogue-style entry
 type pinnedCase struct {
 	Kind    string
 	Src     string // pattern source (Go string; \u escapes are part of the pattern text)
@@ -17,6 +18,7 @@ type pinnedCase struct {
 	Subj    []uint16
 	Expect  string
 	Starts  []int
+	OpStart int
 	Mode    string
 	Cat     *catEntry
 	Comment string
@@ -25,15 +27,38 @@ type pinnedCase struct {
 func us(s string) []uint16 { return runesToUnits([]rune(s)) }
 
 var pinned = []pinnedCase{
-	// --- known findings (structural; see /verif/known-findings.d/C20.json)
-	{Kind: "diff", Src: `(a*)*b`, Flags: "", Subj: us("aab"), Mode: "proto-exec-assign",
-		Comment: "RE2 vs regexp2: capture inside a quantified group that can match empty ('' vs 'aa'; spec: 'aa'... see §22.2.2.3.1 RepeatMatcher)"},
+	// --- known findings, structural (see /verif/known-findings.d/C20.json); the generator's domain excludes their neighbourhood
+	{Kind: "diff", Src: `(a*)*b`, Flags: "", Subj: us("aab"),
+		Comment: "capture inside a quantified group that can match empty: RE2 'aa' (= spec), regexp2 ''"},
+	{Kind: "expect", Src: `(?:|a)+`, Flags: "", Subj: us("aab"), Expect: `[0,["aa"],"aab",undef]`,
+		Comment: "RepeatMatcher empty check (22.2.2.3.1 step 2.b) implemented by neither engine: an iteration that matches empty must be rejected"},
 	{Kind: "expect", Src: `(?:(a)|b)+`, Flags: "", Subj: us("ab"), Expect: `[0,["ab",undef],"ab",undef]`,
-		Comment: "both engines keep the capture of an earlier iteration; RepeatMatcher step 4 resets captures of the atom on every iteration"},
+		Comment: "both engines keep the capture of an earlier iteration; RepeatMatcher step 4 resets the captures of the atom on every iteration"},
 	{Kind: "expect", Src: `\w`, Flags: "i", Subj: []uint16{0x17F}, Expect: `null`,
-		Comment: "/i without u: Canonicalize (§22.2.2.7.3) refuses to map U+017F to 's' (non-ASCII to ASCII); both engines use Unicode folding"},
-	// --- "uu" (fixable: inbox/C20-flags-uu.md); stays pinned after the fix
+		Comment: "/i without u: Canonicalize (22.2.2.7.3) refuses to map U+017F to 's' (non-ASCII to ASCII); both engines use Unicode folding"},
+	{Kind: "expect", Src: `^b`, Flags: "m", Subj: us("a\rb"), Expect: `[2,["b"],"a\u000db",undef]`,
+		Comment: "multiline ^/$ (22.2.2.4): CR, LS, PS are line terminators; both engines only recognise LF"},
+	// --- known findings, defects of the dependency dlclark/regexp2 v2.5.2 (engine pair)
+	{Kind: "diff", Src: `s|[^q]`, Flags: "", Subj: us("sab"), Comment: "regexp2: negated one-character class (Notone) mis-analysed in alternation / after an optional character"},
+	{Kind: "diff", Src: `\B`, Flags: "", Subj: []uint16{0xE0}, Comment: "regexp2: \\b / \\B use Unicode categories L, Mn, Nd, Pc instead of [A-Za-z0-9_]"},
+	{Kind: "diff", Src: `[\--_]`, Flags: "", Subj: us("/"), Comment: "regexp2: an escaped dash is not accepted as the start of a class range"},
+	{Kind: "diff", Src: `\w\ud83d\ude00`, Flags: "", Subj: []uint16{'a', 0xD83D, 0xDE00}, Comment: "regexp2: literal runs containing surrogate code units are searched as Go strings (U+FFFD)"},
+	{Kind: "diff", Src: `.`, Flags: "", Subj: []uint16{0x2028}, Comment: "regexp2: '.' matches U+2028 / U+2029"},
+	{Kind: "diff", Src: `[\Dx]`, Flags: "", Subj: us("x"), Comment: "regexp2: class items following \\D are dropped"},
+	{Kind: "diff", Src: `[]`, Flags: "u", Subj: []uint16{0xD840, 0xDC00}, Comment: "RE2 translation of [] / [^] stops at U+1FFFF (parser test enforces the text)"},
+	// --- regression witnesses of defects that were repaired in /repo (inbox C20-*), kept forever
 	{Kind: "catalogue", Cat: &catEntry{"a", "uu", false, "duplicated flag"}},
+	{Kind: "diff", Src: `a`, Flags: "", Subj: us("a"), Mode: "proto-exec-assign", Comment: "fixed: test() ignored a user-installed exec"},
+	{Kind: "diff", Src: `a`, Flags: "g", Subj: us("ba"), Mode: "own-exec-define", Comment: "fixed: test() ignored a user-installed exec"},
+	{Kind: "diff", Src: `\u00e9`, Flags: "u", Subj: []uint16{0xE9, 0xE9}, Comment: "fixed: non-global replace on regexp2 + u + non-ASCII subject replaced all matches"},
+	{Kind: "diff", Src: `(?<n>a)\u00e9`, Flags: "u", Subj: []uint16{'a', 0xE9}, Comment: "fixed: named groups lost (RE2, u, non-ASCII subject)"},
+	{Kind: "diff", Src: `k`, Flags: "y", Subj: []uint16{0xE9, 'k'}, Starts: []int{0}, Comment: "fixed: sticky ignored by non-global replace on a non-ASCII subject"},
+	{Kind: "diff", Src: `a*`, Flags: "g", Subj: us("ab"), Comment: "fixed: RE2 FindAll drops empty matches abutting a match"},
+	{Kind: "diff", Src: `(?:)`, Flags: "gy", Subj: us("c"), Comment: "fixed: gy iteration stopped after an empty match"},
+	{Kind: "diff", Src: `(?:)`, Flags: "guy", Subj: []uint16{0xD83D, 0xDE00, 'a'}, Comment: "fixed: gy iteration stopped after an empty match (code point advance)"},
+	{Kind: "diff", Src: `a?`, Flags: "", Subj: []uint16{0xE9, 'a', 'b'}, Comment: "fixed: split emitted an extra piece for an empty match right after a separator (regexp2 iteration)"},
+	{Kind: "diff", Src: `x?`, Flags: "", Subj: us("xb"), Comment: "fixed: split, same on the forced regexp2 variant"},
+	{Kind: "diff", Src: `(?:)`, Flags: "y", Subj: us(""), Starts: []int{0}, OpStart: 22, Comment: "fixed: replace with lastIndex > length: Go panic slice bounds out of range"},
 }
 
 func runPinned(c *core.Ctx, p pinnedCase) core.Result {
@@ -79,7 +104,7 @@ func runPinned(c *core.Ctx, p pinnedCase) core.Result {
 	if mode == "" {
 		mode = "proto-exec-assign"
 	}
-	d := &diffCase{rawSrc: us(p.Src), flags: p.Flags, subj: p.Subj, starts: starts, repl: [][]uint16{us("$&"), us("[$1|$2]")}, limits: []int{2},
+	d := &diffCase{rawSrc: us(p.Src), flags: p.Flags, subj: p.Subj, starts: starts, opStart: p.OpStart, repl: [][]uint16{us("$&"), us("[$1|$2]")}, limits: []int{2},
 		mode: mode, variants: []string{"pre", "post"}, origin: "pinned: " + p.Comment}
 	c.Stats.Inc("pinned:diff")
 	o := execDiff(d, nil)
